@@ -87,3 +87,65 @@ def replay(path):
         print("VIOL", json.dumps(v))
     print("crashes:", [(c["kind"], c["msg"]) for c in crashes])
     return 1 if res["viol"] else 0
+
+
+# ------------------------------------------------------------------------------------------------ model-derived cases
+import random
+
+
+def gen():
+    """TLC witness generation (one shortest token sequence per coarse state class of MC_Term.GenView)."""
+    res = {}
+    for name, cfg in (("ansi", "Gen_Term.cfg"), ("avatar", "Gen_Term_avatar.cfg"), ("ctrla", "Gen_Term_ctrla.cfg")):
+        res[name] = vlib.generate(SPEC, "MC_Term", cfg, os.path.join(vlib.GEN, f"term_witness_{name}.ndjson"), timeout=1500)
+    return res
+
+
+def load_witnesses(name):
+    alphabet, wit = [], []
+    for line in open(os.path.join(vlib.GEN, f"term_witness_{name}.ndjson")):
+        v = json.loads(line)
+        if v.get("tag") == "ALPHABET":
+            alphabet = v["toks"]
+        else:
+            wit.append(v["hist"])
+    return alphabet, wit
+
+
+def witness_cases(c, n_shards, per_witness, seed, max_cases=None, extra_sizes=((1, 1), (2, 2), (5, 3), (80, 25), (1, 4), (4, 1))):
+    """State-directed cases: every TLC witness (a token sequence reaching one class of model states) extended by tokens of
+    the model's alphabet (edge coverage of the abstract state graph), replayed on the generated size 3x2 and on other sizes."""
+    gen()
+    rng = random.Random(seed * 7919 + 17)
+    cases = []
+    for emu in ("ansi", "avatar", "ctrla"):
+        alphabet, wit = load_witnesses(emu)
+        for wi, h in enumerate(wit):
+            base = [b for tok in h for b in tok]
+            toks = alphabet if per_witness == "all" else [rng.choice(alphabet) for _ in range(per_witness)]
+            for ti, tok in enumerate(toks):
+                w, hh = (3, 2) if rng.random() < 0.7 else rng.choice(extra_sizes)
+                cases.append({"id": f"w-{emu}-{wi}-{ti}", "emu": emu, "music": 0, "w": w, "h": hh, "alloc": rng.randrange(2), "bs": 0,
+                              "proj": "full" if w * hh <= 64 else "geo", "bytes": base + tok})
+    if max_cases and len(cases) > max_cases:
+        rng.shuffle(cases)
+        cases = cases[:max_cases]
+    shards = []
+    for i in range(n_shards):
+        p = os.path.join(c.workdir, f"cases-w{i}.ndjson")
+        with open(p, "w") as f:
+            for cs in cases[i::n_shards]:
+                f.write(json.dumps(cs, separators=(",", ":")) + "\n")
+        shards.append((f"w{i}", p))
+    return shards, len(cases)
+
+
+def mc_slices(c, thorough):
+    depth = 4 if thorough else 3
+    for sl in ("cursor", "margins", "content", "avatar", "ctrla"):
+        cfg = f"MC_Term_{sl}.cfg"
+        if thorough:
+            src = open(os.path.join(vlib.ROOT, SPEC, cfg)).read().replace("MaxHist = 3", f"MaxHist = {depth}")
+            cfg = f"MC_Term_{sl}_d{depth}.cfg"
+            open(os.path.join(vlib.ROOT, SPEC, cfg), "w").write(src)
+        c.mc(SPEC, "MC_Term", cfg, workers=8, timeout=2400, xmx="16g")
